@@ -5,7 +5,7 @@ import json
 import os
 import sys
 
-MODULES = ["t_common", "t_itersites", "t_adapter", "t_transformer", "t_torsion", "t_clash", "t_parser_v2", "t_parser"]
+MODULES = ["t_common", "t_itersites", "t_adapter", "t_transformer", "t_torsion", "t_clash", "t_parser_v2", "t_parser", "t_annot"]
 
 
 def main(repo="/repo", out="/verif/coq/Gen"):
